@@ -24,7 +24,7 @@ TRUSTED = [
     'Lean 4.33.0 kernel (theorems of FCA/Props and FCA/Proofs; axioms limited to propext, Classical.choice, Quot.sound; audited by #print axioms on this run)',
     'Mathlib v4.33.0 modules imported by FCA/Proofs (definitions and lemmas, kernel-checked)',
     'Lean compiler and runtime for the executable driver (the compiled code of the model definitions)',
-    'harness/ (generators, canonicalisation, comparison) and harness/extract.py (source-to-Lean translation of expression kernels, tables, and the loop bodies of matrices.py, lindig.neighbors and the two FCbO generators; ~x read as in-domain complement)',
+    'harness/ (generators, canonicalisation, comparison) and harness/extract.py + extract2.py (source-to-Lean translation of expression kernels, tables, the loop bodies of matrices.py, lindig.neighbors, lindig.lattice, the two FCbO generators and iterunion, the configuration of the traversal entry points, of Lattice._annotate and of the sorts in Lattice.__init__/_init/_fromlist; ~x read as in-domain complement, dict of mutable tuples read as a record list, heap of (key, x) pairs read as the list of x)',
     'dependency contracts not modelled: bitsets (frommembers/members/bools/shortlex/longlex/powerset/atomic), CPython heapq/sorted/set/dict/int, csv, json, pickle, io, graphviz',
 ]
 
@@ -60,7 +60,7 @@ def build(pid, log):
         have_gen = os.path.exists(gen)
         gen_sources = {'C08': ['Predicates'], 'C16': ['Junctors'], 'C12': ['Formats'], 'C01': ['Loops'],
                        'C03': ['Lindig', 'LindigLattice'], 'C05': ['Lindig'], 'C04': ['Fcbo'], 'C19': ['Validate'],
-                       'C09': ['Iterunion', 'Predicates'], 'C10': ['Annotate']}.get(pid, [])
+                       'C09': ['Iterunion', 'Predicates'], 'C10': ['Annotate'], 'C06': ['SortKeys'], 'C11': ['SortKeys']}.get(pid, [])
         bad_sources = [g for g in gen_sources if str(info['extraction'].get(g, '')).startswith('declined')]
         declined = bool(bad_sources)
         if declined:
